@@ -178,9 +178,17 @@ struct SimRunner : public CommandRunner {
   std::set<std::string> started_once;
   int seq = 0;
 
+  // load-limited capacity (-l): a scripted "room left under the load limit" per call, as RealCommandRunner computes it
+  // from getloadavg(); like there, it may drop to nothing while commands run and is at least 1 when nothing runs
+  std::vector<int> load_caps;
+  mutable size_t load_calls = 0;
   size_t CanRunMore() const override {
     int64_t cap = (int64_t)parallelism - (int64_t)running.size();
     if (jobserver) cap = INT32_MAX;
+    if (!load_caps.empty()) {
+      int64_t lc = load_caps[load_calls++ % load_caps.size()];
+      if (lc < cap) cap = lc;
+    }
     if (cap < 0) cap = 0;
     if (cap == 0 && running.empty()) cap = 1;
     return (size_t)cap;
@@ -567,6 +575,7 @@ JV Invocation(World& w, const JV& step, const std::string& scratch) {
       for (auto& c : sched.at("choices").a) r->choices.push_back((int)c.n);
       r->prng_sched = sched.str("mode", "prng") == "prng";
       r->interrupt_at = (int)step.num("interrupt_at", -1);
+      for (auto& lc : step.at("load_caps").a) r->load_caps.push_back((int)lc.n);
       r->interrupt_via = step.str("interrupt_via");
       r->fail_start = step.str("fail_start");
       r->step_bound = (int)step.num("step_bound", 100000);
